@@ -26,6 +26,7 @@ WIRE["HeadersMacro"] = WIRE["Headers"]
 WIRE["Echo"] = ("echo", {"pe": ("path", 2), "qe": ("query", "qe"), "qo": ("query", "qo"), "ql": ("query", "ql"), "he": ("header", "x-he"),
                          "ho": ("header", "x-ho"), "pq": ("query", "pq"), "po": ("query", "po"), "pl": ("query", "pl"),
                          "ph": ("header", "x-ph"), "pho": ("header", "x-pho")})
+WIRE["Regex"] = ("regexPath", {"n": ("path", 2)})
 WIRE["Attrs"] = ("attrs", {"b": ("path", 2), "bee": ("path", 3), "sea": ("path", 4), "pq": ("query", "q1"), "hh": ("header", "x-h1")})
 
 
@@ -54,6 +55,8 @@ def base_args(ep, salt):
         d["ql"] = ["ok:" + mk("ql")]
         d["pl"] = ["ok:" + mk("pl")]
         return d
+    if ep == "Regex":
+        return {"n": 470000 + salt % 1000}
     if ep == "Attrs":
         d = {n: "ok:" + mk(n) for n in ("b", "bee", "pq", "hh")}
         d["sea"] = 660000 + salt % 1000
@@ -103,6 +106,8 @@ def mutations(ep, adesc, outcome, args, salt):
             return [{"op": "set_header", "name": wname, "bytes": list(bad.encode()) + [0xff, 0xfe]}], bad
         return [{"op": "set_header", "name": wname, "value": bad + "-notanumber"}], bad
     if kind == "path":
+        if outcome == "multi":
+            return [{"op": "set_path_segments", "index": wname, "values": [str(12 + salt % 50), str(34 + salt % 7)]}], None
         return [{"op": "set_path", "index": wname, "value": bad + "-notanumber"}], bad
     if kind in ("auth", "cookie"):
         hname = "authorization" if kind == "auth" else "cookie"
@@ -157,7 +162,7 @@ def flavours(ep, k):
 def run_model(pid, tier):
     """TLC over all endpoint configs; returns (cases, states, transitions, runs, coverage)"""
     cases, states, transitions, runs, cov = [], 0, 0, [], {}
-    for ep in ("SafeMix", "Names", "NamesMacro", "Headers", "HeadersMacro", "Echo", "Attrs", "Query", "AuthCookie", "OptBody", "SafeBody"):
+    for ep in ("SafeMix", "Names", "NamesMacro", "Headers", "HeadersMacro", "Echo", "Attrs", "Regex", "Query", "AuthCookie", "OptBody", "SafeBody"):
         r = vc.tlc(pid, "MCEndpoint", "MCEndpoint_%s.cfg" % ep, workers=4, timeout_s=900)
         if r.error:
             raise vc.ToolError("MCEndpoint_%s: %s" % (ep, r.error))
